@@ -530,7 +530,7 @@ impl<'a> GeneratorState<'a> {
                                             }
                                             let signed = self.asm(
                                                 LDA,
-                                                &ExprType::Absolute(var, false, l * 256),
+                                                &ExprType::Absolute(var, false, l.checked_mul(256).ok_or_else(|| self.compiler_state.syntax_error("Constant overflow", pos))?),
                                                 pos,
                                                 true,
                                             )?;
